@@ -18,13 +18,13 @@ PLAN = dict(
           "patterns vs Dewey::matches, alternations vs the union of their expansions, on names mutated at "
           "positions 0 and 1. Plus the real pkgsrc glob patterns x real names. Non-trivial = every glob case "
           "and every plain case (names differ from a match in <= 1 character by construction); distinct by "
-          "pattern fingerprint. Later additions: ']' as first member of a set; Unicode look-alikes of ASCII digits and letters in names; a leading / trailing piece or the whole name repeated; pairs of glob patterns that collide under common fast hash functions (birthday search at run time), checked first, second, first again."),
+          "pattern fingerprint. Later additions: ']' as first member of a set; Unicode look-alikes of ASCII digits and letters in names; a leading / trailing piece or the whole name repeated; pairs of glob patterns that collide under common fast hash functions (birthday search at run time), checked first, second, first again; ranges with punctuation end points ('[--9]', '[+--]'), '-' as first / last member, one set position swept over every printable ASCII character."),
     exhaustive={"quick": "every pattern of length <= 4 over {a,b,*,?,[,],!,-} (in-subset ones compared, unclosed '[' must be rejected) x all 40 names of length <= 3 over {a,b,-}",
                 "thorough": "every pattern of length <= 5 over {a,b,*,?,[,],!,-} x all 40 names of length <= 3 over {a,b,-}"},
     technique="runtime monitor: differential test against a reference shell-glob matcher and shortcut-free partners (glob crate, equality, Dewey, expansion union)",
     level_text=("Exploration: ~10^5-10^6 patterns x ~30 targeted names each; dispatch classes, the unclosed-bracket "
                 "class and the position-0/1 negative classes are all required to be reached."),
-    level_note="trusts the reference matcher for the subset literal/*/?/[set]/[!set]/ranges; syntax outside it ('**', '[]', '[!]', '[a-]', reversed ranges, names starting with '.') is not compared",
+    level_note="trusts the reference matcher for the subset literal/*/?/[set]/[!set]/ranges; syntax outside it ('**', '[]', '[!]', a lone '-' inside a set that is neither its first nor its last member, reversed ranges, names starting with '.') is not compared",
     assumptions=["the glob crate called directly is only used to cross-check the reference matcher inside the subset"],
-    not_explored=["'**', '[]...]', '[a-]', '[!]', ranges with start > end", "names beginning with '.' (FNM_PERIOD is not mentioned by the statement)"],
+    not_explored=["'**', '[]', '[!]', '[a-b-c]', ranges with start > end", "names beginning with '.' (FNM_PERIOD is not mentioned by the statement)"],
 )
